@@ -115,11 +115,22 @@ type faultBackend struct {
 	injected atomic.Int64
 	delay    atomic.Int64  // one-shot: the next ApplyBatch announces itself on inApply and sleeps this long first (slow commit)
 	inApply  chan struct{} // buffered
+	getDelay atomic.Int64  // one-shot: the next Get announces itself on inGet and sleeps this long first (slow read)
+	inGet    chan struct{} // buffered
 }
 
 var errInjected = errors.New("injected storage fault (C17)")
 
-func (b *faultBackend) Get(key []byte) ([]byte, error) { return b.real.Get(key) }
+func (b *faultBackend) Get(key []byte) ([]byte, error) {
+	if d := b.getDelay.Swap(0); d > 0 {
+		select {
+		case b.inGet <- struct{}{}:
+		default:
+		}
+		time.Sleep(time.Duration(d))
+	}
+	return b.real.Get(key)
+}
 func (b *faultBackend) ApplyBatch(entries []*wal.Entry) error {
 	if b.armed.CompareAndSwap(true, false) {
 		b.injected.Add(1)
@@ -295,7 +306,7 @@ func newWorld(c *Case, rep int, scratch string) *world {
 	limit := time.Duration(c.LimitMs) * time.Millisecond
 	idle := time.Hour
 	if c.Backend == "wrapped" || c.Mode == "short_ttl" || c.Mode == "aged" {
-		w.fb = &faultBackend{real: e.VerifStorage(), inApply: make(chan struct{}, 1)}
+		w.fb = &faultBackend{real: e.VerifStorage(), inApply: make(chan struct{}, 1), inGet: make(chan struct{}, 1)}
 		w.features["backend_wrapped"] = true
 	}
 	switch c.Mode {
@@ -902,6 +913,25 @@ func (w *world) issue(t *txn, deadlineMs int) {
 	// been scheduled, and that goroutine must not pick up the record of a later call.
 	select {
 	case <-rec.entered:
+	case <-call.done:
+		// Returned without having reached the engine: either refused before (then nothing
+		// will ever come), or its goroutine inside Registry.Begin has not been scheduled yet.
+		// Give that goroutine a generous second of heartbeat time before the record is retired.
+		t0 := ticks.Load()
+		for entered := false; !entered && ticks.Load()-t0 < ticksOf(time.Second); {
+			select {
+			case <-rec.entered:
+				entered = true
+			default:
+				time.Sleep(200 * time.Microsecond)
+			}
+		}
+		w.weng.mu.Lock()
+		if w.weng.next == rec {
+			w.weng.next = nil
+			w.counters["begin_returned_without_reaching_engine"]++
+		}
+		w.weng.mu.Unlock()
 	case <-time.After(infraBound):
 		panic("begin call never reached the engine")
 	}
@@ -2126,6 +2156,13 @@ func (w *world) ghosts() []*beginRec {
 }
 
 func (w *world) run() {
+	if w.c.Long != nil {
+		w.runLongLived()
+		w.stepNo = w.c.Long.Lives
+		w.probe(0)
+		w.registryProbe()
+		return
+	}
 	for i, s := range w.c.Steps {
 		if w.abort {
 			break
@@ -2151,6 +2188,8 @@ func (w *world) run() {
 			w.doCleanupConn(s)
 		case "shutdown":
 			w.doShutdown()
+		case "race_finish":
+			w.doRaceFinish(s)
 		}
 	}
 	w.stepNo = len(w.c.Steps)
